@@ -1,10 +1,162 @@
-import WacModel.Encode
-import WacModel.Spec.Wiring
+import WacProofs.Lemmas.EncodeImports2
+import WacProofs.Lemmas.Toposort
+/-
+  C02 — encoded wiring is exactly the composition graph (translation validation, proved once
+  for all graph values).
+
+  Objects: `encode : GraphVal → Opts → Res Skeleton` is the model of
+  `CompositionGraphEncoder::encode`; `wiring : Skeleton → Wiring` is the Lean section reader
+  (provenance of every index); `specWiringWith g cn define ord` is the wiring the graph
+  designates (read off the public queries) for the emission order `ord` and the naming `cn` of
+  shared imports.
+-/
 namespace Wac.Props.C02
 open Wac Wac.Spec
 
-/-- the section reader is a left fold: reading one more item is one more step -/
-theorem wiringSt_snoc (sk : Skeleton) (it : Item) : wiringSt (sk ++ [it]) = wstep (wiringSt sk) it := by
-  simp [wiringSt, List.foldl_append]
+/-- a wiring without its import list (imports/exports *names* are C03's) -/
+def core (w : Wiring) : Wiring := { w with imports := [] }
+
+/-- the non-import nodes in emission order -/
+def others (g : GraphVal) (order : List Nat) : List Nat := order.filter fun id => !isImportNode g id
+/-- the import nodes in emission order -/
+def importsOf (g : GraphVal) (order : List Nat) : List Nat := order.filter (isImportNode g)
+
+/-
+  Full statement (C02):
+
+    theorem wiring_encode : WF g → toposort g = .ok order → encode g o = .ok s →
+        core (wiring s) = core (specWiring g o.define (others g order))
+
+  where `specWiring` names every shared import for the highest version on its semver track
+  (`Spec.canon`) and there is no hypothesis on the aggregated imports.
+
+  Proved here (`wiring_encode_partial`): the same equation with the naming of shared imports
+  taken from the model's aggregator (`agg.canonical`) and under `AggOk g agg`.  Missing for the
+  full strength: (1) `agg.canonical = Spec.canon g` and the `keysNodup / implicitKind /
+  explicitKind` parts of `AggOk` — properties of the name-level aggregation alone, the subject
+  of C03 (`canonical_is_highest`, `canonical_kind`); (2) `AggOk.ifaceNamed`, which is *false*
+  for the shape of known finding `enc-explicit-interface-import-merged` (there the real
+  encoder, and the model, wire a designated explicit import to another import), so the full
+  statement without it does not hold for the unchanged code.
+-/
+theorem wiring_encode_partial {g : GraphVal} {o : Opts} {s : Skeleton} {order : List Nat} {agg : Agg}
+    (wf : WF g) (ht : toposort g = .ok order)
+    (hagg : aggOf g (importsOf g order) = some agg) (hok : AggOk g agg)
+    (he : encode g o = .ok s) :
+    core (wiring s) = core (specWiringWith g agg.canonical o.define (others g order)) := by
+  unfold encode at he
+  cases hst : encodeSt g o with
+  | error e => simp [hst] at he
+  | panic p => simp [hst] at he
+  | ok st =>
+    simp only [hst] at he
+    injection he with he
+    subst he
+    unfold encodeSt at hst
+    simp only [ht] at hst
+    cases h1 : encodeImports g (order.filter (isImportNode g)) {} with
+    | error e => simp [h1] at hst
+    | panic p => simp [h1] at hst
+    | ok st1 =>
+      simp only [h1] at hst
+      cases h2 : encNodes g o (order.filter fun id => !isImportNode g id) st1 with
+      | error e => simp [h2] at hst
+      | panic p => simp [h2] at hst
+      | ok st2 =>
+        simp only [h2] at hst
+        cases h3 : encExports g g.exports st2 with
+        | error e => simp [h3] at hst
+        | panic p => simp [h3] at hst
+        | ok st3 =>
+          simp only [h3] at hst
+          -- the import phase gives the loop invariant
+          have hcomplete : ∀ nd ∈ g.nodes, nd.isImport = true → nd.id ∈ order.filter (isImportNode g) := by
+            intro nd hnd hi
+            have hin : nd.id ∈ order := (toposort_complete ht).2 _ (List.mem_map_of_mem (f := (·.id)) hnd)
+            have : isImportNode g nd.id = true := by
+              simp [isImportNode, node?_of_mem wf.idsNodup hnd, hi]
+            exact List.mem_filter.mpr ⟨hin, this⟩
+          have inv1 := encodeImports_inv (o := o) wf _ hcomplete hagg hok h1
+          have inv2 := encNodes_inv wf _ inv1 h2
+          generalize hss : (order.filter fun id => !isImportNode g id).foldl (specNode g agg.canonical o.define)
+            { terms := importTerms g agg.canonical } = ss at inv2
+          have hn2 : NodesOk g ss st2 := inv2.nodes
+          obtain ⟨hs3, hext3, hni3, hw3⟩ := encExports_spec g.exports inv2.sync hn2 h3
+          have hn3 : NodesOk g ss st3 := hn2.ext hext3 hni3
+          have hw4 := encNames_spec wf hs3 hn3 hst
+          show core (G st).w = _
+          rw [hw4, hw3]
+          simp only [core, specWiringWith, others, hss, inv2.insts, inv2.aliases, inv2.exports, inv2.comps,
+            inv2.names, specExports, List.nil_append]
+
+/-- `toposort_sound`: a successful toposort lists every live node exactly once, and every node
+    after all the sources of its incoming edges (argument sources, alias source, type
+    dependencies) -/
+theorem toposort_sound {g : GraphVal} {order : List Nat} (ht : toposort g = .ok order) :
+    order.Nodup ∧ (∀ n ∈ g.ids, n ∈ order) ∧
+      ∀ pre n post, order = pre ++ n :: post → ∀ p ∈ g.preds n, p = n ∨ p ∈ pre :=
+  ⟨(toposort_complete ht).1, (toposort_complete ht).2, toposort_preds_before ht⟩
+
+end Wac.Props.C02
+
+namespace Wac.Props.C02
+open Wac Wac.Spec
+
+/-! ### a concrete composition meeting every hypothesis (non-vacuity)
+
+  packages `a` (imports `f`, `x:y/i@1.0.0`) and `b` (imports `g`); nodes: 0 = import `f`,
+  1 = instantiate `a` with `f` ← node 0 (the interface import stays implicit), 2 = alias of
+  export `out` of node 1, 3 = instantiate `b` with `g` ← node 2, 4 = a second instantiation of
+  `a` with `f` ← node 2; node 3 is exported under two names, nodes 1 and 2 are named. -/
+
+def exPkgA : PkgVal :=
+  { slot := 0, name := ['t', ':', 'a'], version := some ['1', '.', '0', '.', '0'], bytesId := 0,
+    imports := [{ name := ['f'], ty := { kind := .func } },
+                { name := ['x', ':', 'y', '/', 'i', '@', '1', '.', '0', '.', '0'], ty := { kind := .instance, iface := some ['x', ':', 'y', '/', 'i', '@', '1', '.', '0', '.', '0'] } }] }
+def exPkgB : PkgVal :=
+  { slot := 1, name := ['t', ':', 'b'], version := none, bytesId := 1,
+    imports := [{ name := ['g'], ty := { kind := .func } }] }
+
+def exGraph : GraphVal :=
+  { pkgs := [exPkgA, exPkgB],
+    nodes := [
+      { id := 0, kind := .import ['f'], ty := { kind := .func }, succ := [1] },
+      { id := 1, kind := .instantiation 0 [0], ty := { kind := .instance }, name := some ['f', 'i', 'r', 's', 't'],
+        inc := [(.arg 0 ['f'], 0)], succ := [2] },
+      { id := 2, kind := .alias, ty := { kind := .func }, name := some ['o', 'u', 't'],
+        inc := [(.alias ['o', 'u', 't'], 1)], succ := [4, 3] },
+      { id := 3, kind := .instantiation 1 [0], ty := { kind := .instance }, inc := [(.arg 0 ['g'], 2)] },
+      { id := 4, kind := .instantiation 0 [0], ty := { kind := .instance }, inc := [(.arg 0 ['f'], 2)] }],
+    exports := [(['e', '1'], 3), (['e', '2'], 3)] }
+
+def exOrder : List Nat := [0, 1, 2, 3, 4]
+def exAgg : Agg :=
+  { imports := [(['x', ':', 'y', '/', 'i', '@', '1', '.', '0', '.', '0'], { kind := .instance, iface := some ['x', ':', 'y', '/', 'i', '@', '1', '.', '0', '.', '0'] }), (['f'], { kind := .func })] }
+
+theorem exGraph_wf : WF exGraph := wfCheck_sound (by decide)
+theorem exGraph_toposort : toposort exGraph = .ok exOrder := by decide
+theorem exGraph_agg : aggOf exGraph (importsOf exGraph exOrder) = some exAgg := by decide
+theorem exGraph_aggOk : AggOk exGraph exAgg := aggOkCheck_sound (by decide)
+
+def exSkel : Skeleton :=
+  match encode exGraph { define := true } with
+  | .ok s => s
+  | _ => []
+
+theorem exGraph_encode : encode exGraph { define := true } = .ok exSkel := by rfl
+
+/-- the hypotheses of `wiring_encode_partial` are met by `exGraph`, and its conclusion is not
+    trivial: two instantiations of one package and one of another, the implicit interface
+    import shared by both instantiations of `a`, a node exported under two names -/
+example :
+    core (wiring exSkel) = core (specWiringWith exGraph exAgg.canonical true (others exGraph exOrder)) ∧
+    (wiring exSkel).insts.length = 3 ∧ (wiring exSkel).comps = [0, 1] ∧
+    ((wiring exSkel).insts.map fun i => i.args.map (·.2.2)) =
+      [[.imp ['f'], .imp ['x', ':', 'y', '/', 'i', '@', '1', '.', '0', '.', '0']],
+       [.aliasOf (.inst 0) ['o', 'u', 't']],
+       [.aliasOf (.inst 0) ['o', 'u', 't'], .imp ['x', ':', 'y', '/', 'i', '@', '1', '.', '0', '.', '0']]] ∧
+    (wiring exSkel).exports = [(['e', '1'], .instance, .inst 1), (['e', '2'], .instance, .inst 1)] :=
+  ⟨wiring_encode_partial exGraph_wf exGraph_toposort exGraph_agg exGraph_aggOk exGraph_encode,
+   by decide, by decide, by decide, by decide⟩
 
 end Wac.Props.C02
